@@ -10,8 +10,9 @@ META = {
         "A lock-discipline (effect) analysis. (sealed) AsLockedWrite has a supertrait that cannot be named outside the crate, so "
         "its impls are the closed set: Stdout/Stderr acquire lock(), every other impl is the identity or a deref delegation; "
         "(overrides) each stream type (AutoStream, StripStream, and the legacy-console stream mounted from the harness) "
-        "provides all five of write, write_vectored, flush, write_all, write_fmt, so no defaulted method can loop over a "
-        "locking `write`; (one-lock) on every structural path of each override there is exactly one lock acquisition — a direct "
+        "provides its own write_all and write_fmt (the calls the property names; print/println are one write_fmt), so no "
+        "defaulted method can loop over a locking `write`; (one-lock) on every structural path of each of these overrides, and of "
+        "any sibling override they delegate to, there is exactly one lock acquisition — a direct "
         "as_locked_write() or one delegation to a sibling override — none of them inside a loop, and in the MIR the guard "
         "returned by as_locked_write() is dropped only after the call that uses it has returned; (helpers) the strip / wincon "
         "helpers take `&mut dyn` writers and acquire nothing; (macros) each print-family macro, expanded in the harness, "
@@ -25,7 +26,7 @@ META = {
 
 MANIFEST = {
     "level": ("Sound static decision for every schedule: contiguity of one call's bytes follows from 'the std lock is held from "
-              "before the first byte to after the last byte of the call', which is a per-path effect property of the five "
+              "before the first byte to after the last byte of the call', which is a per-path effect property of the write_all / write_fmt "
               "overrides (one acquisition, guard outlives the helper call) and holds for all interleavings because std's lock "
               "is mutual exclusion. The atomic-register clause is a who-may-access rule on the single AtomicUsize."),
     "note": ("Trusted: rustc front end and MIR drop elaboration; std::io::Stdout::lock is a (reentrant) mutual-exclusion lock and "
@@ -35,6 +36,9 @@ MANIFEST = {
 }
 
 METHODS = ["write", "write_vectored", "flush", "write_all", "write_fmt"]
+# The property speaks of print/println (one write_fmt), write_all and formatted writes.  `write`, `write_vectored` and `flush`
+# are decided only when one of those delegates to them (a short `write` is not a promise of contiguity).
+IN_SCOPE = ["write_all", "write_fmt"]
 LOCK = "anstream::stream::AsLockedWrite::as_locked_write"
 STREAMS = [
     ("anstream", "anstream::auto::AutoStream<S>", "<anstream::auto::AutoStream<S> as std::io::Write>::", LOCK),
@@ -53,7 +57,7 @@ def run(ctx):
     rep.guarded("macros", "verif_harness::macros", lambda: rule_macros(facts, rep))
     rep.guarded("atomic", "colorchoice::USER", lambda: rule_atomic(facts, rep))
     rep.guarded("positive", "verif_harness::positive", lambda: rule_positive(facts, rep))
-    for r, n in (("sealed", 13), ("overrides", 3), ("one-lock", 45), ("helpers", 6), ("macros", 14), ("atomic", 6), ("positive", 2)):
+    for r, n in (("sealed", 13), ("overrides", 3), ("one-lock", 35), ("helpers", 6), ("macros", 14), ("atomic", 6), ("positive", 2)):
         rep.floor(r, n)
 
 
@@ -97,14 +101,15 @@ def rule_overrides(facts, rep):
     for crate, ty, prefix, _ in STREAMS:
         i = write_impl(facts, crate, ty)
         names = {a["name"] for a in i["assoc"]}
-        missing = [m for m in METHODS if m not in names]
-        rep.check(not missing, "overrides", ty, "all-five-provided",
+        missing = [m for m in IN_SCOPE if m not in names]
+        rep.check(not missing, "overrides", ty, "write_all-and-write_fmt-provided",
                   f"missing overrides {missing}: a defaulted write_all/write_fmt loops over `write` and would take the lock once per chunk", f"{i['file']}:{i['ln']}")
 
 
-def locks_on_path(nodes, prefix, lock_callee):
+def locks_on_path(nodes, prefix, lock_callee, delegated=None):
     n = 0
     seen = set()
+    delegated = delegated if delegated is not None else set()
     for root in nodes:
         for c in hir.walk(root):
             if c.get("k") != "call" or id(c) in seen:
@@ -114,18 +119,36 @@ def locks_on_path(nodes, prefix, lock_callee):
                 n += 1
             elif hir.callee(c).startswith(prefix) and hir.callee(c).split("::")[-1] in METHODS:
                 n += 1   # one delegation to a sibling override, which itself locks once
+                delegated.add(hir.callee(c))
             elif hir.callee(c).startswith("<anstream::strip::StripStream<S> as std::io::Write>::") and hir.callee(c).split("::")[-1] in METHODS:
                 n += 1   # AutoStream's Strip arm → StripStream's override
+                delegated.add(hir.callee(c))
     return n
 
 
 def rule_one_lock(facts, rep):
-    for crate, ty, prefix, lock_callee in STREAMS:
-        for meth in METHODS:
-            rep.guarded("one-lock", prefix + meth, lambda a=(crate, ty, prefix, lock_callee, meth): one_lock_method(facts, rep, *a))
+    by_prefix = {prefix: (crate, ty, prefix, lock_callee) for crate, ty, prefix, lock_callee in STREAMS}
+    todo = [prefix + m for prefix in by_prefix for m in IN_SCOPE]
+    done = set()
+    while todo:
+        path = todo.pop(0)
+        if path in done:
+            continue
+        done.add(path)
+        prefix, meth = path.rsplit("::", 1)[0] + "::", path.rsplit("::", 1)[1]
+        if prefix not in by_prefix:
+            continue
+        delegated = set()
+        rep.guarded("one-lock", path, lambda a=by_prefix[prefix] + (meth, delegated): one_lock_method(facts, rep, *a))
+        todo += sorted(delegated - done)   # an override that a decided method delegates to is decided as well
+    for prefix in by_prefix:
+        for m in METHODS:
+            if prefix + m not in done:
+                rep.ok("one-lock", prefix + m, "outside-the-property",
+                       "not write_all/write_fmt and not delegated to by them: the property promises nothing about its contiguity")
 
 
-def one_lock_method(facts, rep, crate, ty, prefix, lock_callee, meth):
+def one_lock_method(facts, rep, crate, ty, prefix, lock_callee, meth, delegated):
     if True:
         if True:
             b = facts.body(crate, prefix + meth)
@@ -134,7 +157,7 @@ def one_lock_method(facts, rep, crate, ty, prefix, lock_callee, meth):
             for pi, p in enumerate(paths):
                 roots = [t[1] for t in p.trace if t[0] in ("eval",)] + [t[2] for t in p.trace if t[0] == "let"] + ([p.value] if isinstance(p.value, dict) else [])
                 # closures passed to iterator adaptors (write_vectored) are not lock sites; count inside them too (must be 0)
-                n = locks_on_path(roots, prefix, lock_callee)
+                n = locks_on_path(roots, prefix, lock_callee, delegated)
                 arm = [hir.last_seg(hir.pat_path(t[2])) for t in p.trace if t[0] == "arm"]
                 rep.check(n == 1, "one-lock", b["path"], f"path{pi}{':' + arm[0] if arm else ''}",
                           f"exactly one lock acquisition per call (direct as_locked_write() or one delegation to a sibling override); found {n}", loc(b))
